@@ -8,6 +8,7 @@ import (
 	"fmt"
 	"go/token"
 	"os"
+	"runtime/debug"
 	"sort"
 	"strings"
 	"time"
@@ -15,12 +16,18 @@ import (
 	"golang.org/x/tools/go/ssa"
 )
 
+var traceLvl = len(os.Getenv("SYMGO_TRACE"))
+
+var debugModel = os.Getenv("SYMGO_DEBUG_MODEL") != ""
+
 type decision struct {
 	cond   *Term // constraint asserted is cond if val else not cond
 	val    bool
 	hasAlt bool // other side feasible and unexplored
 	kind   uint8 // 0 branch, 1 assume/assert-continue, 2 no-merge marker
 	altModel Model
+	site   *ssa.If // for markers: the If whose region could not be merged
+	seq    int     // dynamic occurrence number of that If on the path
 }
 
 type Obligation struct {
@@ -57,6 +64,7 @@ type Explorer struct {
 	trivialOK    int
 	unknownFeas  int
 	rangeFacts   map[*Term][3]int64
+	bseq         int // number of symbolic branches met so far on the current path (regions count once)
 }
 
 func newExplorer(m *Machine) *Explorer {
@@ -109,6 +117,9 @@ func (e *Explorer) checkSide(lit *Term) (Result, Model) {
 }
 
 func (e *Explorer) pushConstraint(d decision) {
+	if traceLvl >= 2 {
+		fmt.Fprintf(os.Stderr, "T path=%d PUSH pos=%d kind=%d val=%v alt=%v %s\n", e.Paths, e.pos, d.kind, d.val, d.hasAlt, trunc(d.cond.String(), 90))
+	}
 	s := e.m.sol
 	s.Push()
 	if d.kind != 2 {
@@ -125,6 +136,15 @@ func (e *Explorer) pushConstraint(d decision) {
 func (e *Explorer) evalModel(c *Term) (bool, bool) {
 	if !e.modelOK || e.model == nil {
 		return false, false
+	}
+	if debugModel {
+		memo := map[*Term]int64{}
+		for i, t := range e.pc() {
+			if v, ok := t.Eval(e.model, memo); ok && v == 0 {
+				fmt.Fprintf(os.Stderr, "INVALID MODEL: pc[%d]=%v false under %v\n%s\n", i, trunc(t.String(), 200), e.model, debug.Stack())
+				break
+			}
+		}
 	}
 	v, ok := c.Eval(e.model, map[*Term]int64{})
 	return v != 0, ok
@@ -245,7 +265,13 @@ func (m *Machine) assume(c value) {
 		if e.pos < len(e.dec) {
 			d := e.dec[e.pos]
 			if d.cond != c || d.kind != 1 {
-				panic(engineError{"non-deterministic replay at assume"})
+				if os.Getenv("SYMGO_TRACE") != "" {
+					fmt.Fprintf(os.Stderr, "MISMATCH at assume; stack:\n%s\n", debug.Stack())
+					for i, dd := range e.dec {
+						fmt.Fprintf(os.Stderr, "  dec[%d] kind=%d val=%v alt=%v %v\n", i, dd.kind, dd.val, dd.hasAlt, trunc(dd.cond.String(), 100))
+					}
+				}
+				panic(engineError{fmt.Sprintf("non-deterministic replay at assume (pos %d kind %d): have %v want %v", e.pos, d.kind, c, d.cond)})
 			}
 			e.pos++
 			return
@@ -424,6 +450,7 @@ func (e *Explorer) Explore(root func(), onPath func(PathOutcome)) {
 	for {
 		m.undoTo(mark)
 		e.pos = 0
+		e.bseq = 0
 		e.rangeFacts = nil
 		m.varSeq = map[string]int{}
 		out := e.runPath(root)
@@ -454,10 +481,13 @@ func (e *Explorer) each(f func()) {
 	mark := len(m.trail)
 	floor := len(e.dec)
 	baseModel, baseModelOK := e.model, e.modelOK
+	seq0 := e.bseq
+	defer func() { e.bseq = seq0 }()
 	var pass any
 	for {
 		m.undoTo(mark)
 		e.pos = floor
+		e.bseq = seq0
 		func() {
 			defer func() {
 				if r := recover(); r != nil {
@@ -637,6 +667,8 @@ func blockPanics(b *ssa.BasicBlock) bool {
 func (m *Machine) branch(fr *frame, in *ssa.If, c *Term) bool {
 	e := m.ex
 	b := in.Block()
+	e.bseq++
+	myseq := e.bseq
 	if m.noMerge || blockPanics(b.Succs[0]) || blockPanics(b.Succs[1]) {
 		m.decide(c)
 		return false
@@ -655,7 +687,7 @@ func (m *Machine) branch(fr *frame, in *ssa.If, c *Term) bool {
 	// replaying a recorded no-merge marker?
 	if e.pos < len(e.dec) {
 		d := e.dec[e.pos]
-		if d.kind == 2 && d.cond == c {
+		if d.kind == 2 && d.site == in && d.seq == myseq {
 			e.pos++
 			m.decide(c)
 			return false
@@ -663,13 +695,14 @@ func (m *Machine) branch(fr *frame, in *ssa.If, c *Term) bool {
 	}
 	join := m.postDom(fr.fn)[b]
 	ok := m.mergeRegion(fr, in, c, join)
+	e.bseq = myseq
 	if ok {
 		return true
 	}
 	// record that merging failed here, then fork
 	e.MergeFails++
 	e.noMergeIf[in] = true
-	e.pushConstraint(decision{cond: c, kind: 2, val: true})
+	e.pushConstraint(decision{cond: c, kind: 2, val: true, site: in, seq: myseq})
 	m.decide(c)
 	return false
 }
@@ -694,7 +727,11 @@ func (m *Machine) mergeRegion(fr *frame, in *ssa.If, c *Term, join *ssa.BasicBlo
 		e.dec = e.dec[:e.pos]
 	}
 	b := in.Block()
+	if traceLvl >= 2 {
+		fmt.Fprintf(os.Stderr, "T path=%d ENTER %s b%d floor=%d tail=%d\n", e.Paths, fr.fn.Name(), b.Index, e.pos, len(tail))
+	}
 	entrySerial := m.serial
+	seqAtEntry := e.bseq
 	envSnap := copyEnv(fr.env)
 	defersSnap := len(fr.defers)
 	mark := len(m.trail)
@@ -719,6 +756,7 @@ func (m *Machine) mergeRegion(fr *frame, in *ssa.If, c *Term, join *ssa.BasicBlo
 		fr.done = false
 		fr.skipPhis = false
 		e.pos = floor
+		e.bseq = seqAtEntry
 		var end pathEnd
 		func() {
 			defer func() {
@@ -792,6 +830,7 @@ func (m *Machine) mergeRegion(fr *frame, in *ssa.If, c *Term, join *ssa.BasicBlo
 	}
 	m.sol.PopTo(e.baseLevel + floor)
 	e.pos = floor
+	e.rangeFacts = nil
 	for _, d := range tail {
 		e.pushConstraint(d)
 	}
@@ -952,7 +991,7 @@ func (m *Machine) mergeRegion(fr *frame, in *ssa.If, c *Term, join *ssa.BasicBlo
 		for _, en := range ends {
 			ks += fmt.Sprintf("%d", en.kind)
 		}
-		fmt.Fprintf(os.Stderr, "REGION %s @%s paths=%s ok=%v why=%s floor=%d\n", fr.fn.Name(), posOf(m.prog, in.Pos()), ks, okMerge, mergeWhy, floor)
+		fmt.Fprintf(os.Stderr, "REGION %s b%d paths=%s ok=%v why=%s floor=%d tail=%d cond=%s\n", fr.fn.Name(), in.Block().Index, ks, okMerge, mergeWhy, floor, len(tail), trunc(c.String(), 120))
 	}
 	if !okMerge {
 		return false
